@@ -129,7 +129,7 @@ func (u *Universe) sessionV1(s Spec) *protosession.SessionToken {
 	if s.Op.HasObject() && s.SessionBindObj {
 		id := u.ObjectID(s.Cnr, s.Obj)
 		if s.Defect == DefSessionOtherObject {
-			id = u.ObjectID(s.Cnr, (s.Obj+1)%(numObjects+1))
+			id = u.ObjectID(s.Cnr, (s.Obj+1)%numObjIndexes)
 		}
 		t.LimitByObjects(id)
 	}
@@ -376,7 +376,7 @@ func (u *Universe) addr(ci, oi int) *refs.Address {
 
 // otherObj returns an address of another object of the container (retargeting a signed request).
 func (u *Universe) otherAddr(s Spec) *refs.Address {
-	return u.addr(s.Cnr, (s.Obj+1+s.DefectArg%2)%(numObjects+1))
+	return u.addr(s.Cnr, (s.Obj+1+s.DefectArg%2)%numObjIndexes)
 }
 
 // Build produces the messages of the normalised spec. It panics on harness bugs only.
